@@ -23,7 +23,7 @@ def pre_programs(tier: str, seed: int):
 
 def eff_programs(tier: str, seed: int):
     out = [(pl, True, eff, "core") for pl, eff in G.core_effects()]
-    n = 110 if tier == "quick" else 700
+    n = 110 if tier == "quick" else 450
     out += [(pl, c, t, "sampled") for pl, c, t in G.sampled_programs(seed * 104729 + 5, n, "eff")]
     import random as _r
     rng = _r.Random(seed * 17 + 3)
